@@ -1,17 +1,23 @@
 #!/bin/bash
-# processes finished seeds one at a time until /tmp/seed_queue.stop exists
+# processes finished seeds, up to $LANES at a time, until /tmp/seed_queue.stop exists
+LANES=${LANES:-3}
+H=$(git -C /repo rev-parse --short HEAD)
 while [ ! -f /tmp/seed_queue.stop ]; do
   for d in /tmp/seed-C*-*/out; do
+    [ -f /tmp/seed_queue.stop ] && break
     [ -s $d/patch.diff ] && [ -s $d/NOTES.md ] || continue
     id=$(echo $d | sed 's#/tmp/seed-\(C[0-9]*\)-\([a-z0-9]*\)/out#\1 \2#')
     set -- $id
     [ -s /verif/seeded/$1-$2/meta.json ] && continue
     [ -f /tmp/seed-$1-$2/.verifying ] && continue
-    # wait until the patch file has been stable for 3 minutes (agent finished writing)
+    # wait until the notes file has been stable for 3 minutes (agent finished writing)
     age=$(( $(date +%s) - $(stat -c %Y $d/NOTES.md) ))
     [ $age -lt 180 ] && continue
+    while [ $(jobs -r | wc -l) -ge $LANES ]; do sleep 20; done
     touch /tmp/seed-$1-$2/.verifying
-    /verif/tools/seed_verify.sh $1 $2 > /verif/out/seed_$1$2.log 2>&1
+    /verif/tools/seed_verify.sh $1 $2 > /verif/out/seed_$1$2.log 2>&1 &
+    sleep 45
   done
   sleep 60
 done
+wait
